@@ -45,6 +45,18 @@ class Mg:
     def __len__(self):   # a manager that is also an empty container is falsy - and still a manager
         return 0 if self.spec.get("falsy") else 1
 
+    def __eq__(self, other):
+        # managers with an equality of their own: one that is equal to everything (a mock, an "any" matcher), one that
+        # cannot be compared; which manager an unwrap hook returned is a matter of identity
+        if self.spec.get("eq") == "true":
+            return True
+        if self.spec.get("eq") == "raise":
+            raise TypeError("cannot compare")
+        return self is other
+
+    def __hash__(self):
+        return id(self)
+
 
 def _elab_mg(m, ctx):
     LOG.append(["elab", m.idx])
